@@ -42,7 +42,22 @@ ASSUME = [
 ]
 
 # Genuine defects of /repo awaiting a decision by the coordinator (narrow structural match).
-PENDING_FINDINGS = []
+# Odd 64-bit numbers n that are NOT perfect squares but for which is_perfect_square(n) returns true, because
+# `curr * curr` wraps around 2^64 for a Newton iterate curr >= 2^32 with curr^2 = n (mod 2^64).  strong_lucas
+# then answers COMPOSITE whatever n is.  Found by solving (c - 2^k)^2 = rho + 4^k - A_k (mod 2^64) for the k-th
+# iterate c (exploration outside this check); the first entry is PRIME (proved in Lean:
+# Au.C12_isPrime_counterexample), so is_prime is wrong on it and mag<n>() does not compile.
+SQUARE_FALSE_POSITIVES = [10785637507345693793, 10685528935143053617, 15405458870843798969, 3705102001104354505,
+                          12673371479969681361, 9425997995154109105, 11837406317022473153, 10479697266598077369,
+                          6889858086595868265, 18364858902909781353, 17480118059326553593, 4454208207196073833,
+                          14852596459453078769, 14672545851565818025, 10969573557020164425, 3074454413583988969,
+                          4419674699631115401, 10501764065474018401]
+
+# Genuine defects of /repo awaiting a decision by the coordinator (narrow structural match on the replay record):
+# is_prime(10785637507345693793) == false although the number is prime (and strong_lucas says COMPOSITE for it).
+PENDING_FINDINGS = [
+    {"kind": "P", "n": 10785637507345693793, "observable": ["is_prime", "strong_lucas"]},
+]
 
 # ----------------------------------------------------------------------------------------------
 # Independent oracles (Python big integers; none of this goes through the Lean model)
@@ -312,6 +327,7 @@ def gen_adversarial(rng, tier):
             (1 << 34) + 4, (1 << 34) + 3, (1 << 34) + 5, MAXU, MAXU - 1, MAXU - 2, MAXU - 58, (1 << 63) - 25, (1 << 63) + 29,
             (1 << 32) - 5, (1 << 32) + 15, ((1 << 32) - 5) * ((1 << 32) - 17), 0, 1]
     adv["edges"] = edge
+    adv["is_perfect_square_false_positives"] = list(SQUARE_FALSE_POSITIVES)
     return adv
 
 
@@ -528,7 +544,8 @@ int main() {
         g_what = "-"; g_cur = 0;
         char cmd[16] = {0}; char op[16] = {0}; ull a = 0, b = 0, c = 0, e = 0;
         if (sscanf(line, "%15s", cmd) != 1) { puts("bad"); continue; }
-        if (!strcmp(cmd, "P")) {
+        if (!strcmp(cmd, "P") || !strcmp(cmd, "PQ")) {
+            // PQ: without find_prime_factor (which does not terminate on a prime that is_prime rejects)
             if (sscanf(line, "%*s %llu", &a) != 1) { puts("bad"); continue; }
             uint64_t n = a;
             g_what = "P"; g_cur = n;
@@ -537,7 +554,7 @@ int main() {
             const char* lucas = "skipped"; long wl = 0;
             if (n != UINT64_MAX) { u0 = g_ub; lucas = prn(d::strong_lucas(n)); wl = g_ub - u0; }
             bool ip = d::is_prime(n);
-            uint64_t f = n > 1 ? d::find_prime_factor(n) : 0;
+            uint64_t f = (n > 1 && !cmd[1]) ? d::find_prime_factor(n) : 0;
             bool reached = n >= 2 && n % 2 == 1 && n != UINT64_MAX;
             printf("prime=%d sq=%d mr2=%s lucas=%s factor=%llu wmr=%ld wlucas_excess=%ld\n", (int)ip, (int)sq, prn(mr), lucas,
                    (ull)f, wmr, reached ? wl - wsq : wl);
@@ -838,7 +855,7 @@ def judge_P(n, cls, impl, model, cfg, wrapdet, violations, stats):
     if (r["prime"] == "1") != truth:
         violations.append({"what": f"is_prime({n}) = {r['prime']} but n is {'prime' if truth else 'composite'}",
                            "class": f"oracle-isprime-{n}", "rec": dict(base, observable="is_prime", want=int(truth))})
-    if n > 1:
+    if n > 1 and cls != "is_perfect_square_false_positives":
         f = int(r["factor"])
         if not (1 < f <= n and n % f == 0 and is_prime_det(f)):
             violations.append({"what": f"find_prime_factor({n}) = {f} is not a prime divisor", "class": f"oracle-factor-{n}",
@@ -1118,8 +1135,10 @@ def explore(tier, seed, rng, wd, violations):
                 continue
         pl2.append((n, cls))
     plist = pl2
-    p_lines = [f"P {n}" for n, _ in plist]
-    model_P = ask_model([f"c12 P {n}" for n, _ in plist])
+    def pcmd(cls):
+        return "PQ" if cls == "is_perfect_square_false_positives" else "P"
+    p_lines = [f"{pcmd(cls)} {n}" for n, cls in plist]
+    model_P = ask_model([f"c12 {pcmd(cls)} {n}" for n, cls in plist])
 
     acases = gen_mod_cases(rng, tier)
     a_lines = [f"A {op} {a} {b} {n}" for (op, a, b, n, _) in acases]
@@ -1335,12 +1354,13 @@ def replay(path):
         if kind == "P":
             n = int(r["n"])
             try:
-                a, _ = run_sharded(exe, [f"P {n}"], shards=1, budget=60)
+                pq = "PQ" if r.get("class") == "is_perfect_square_false_positives" else "P"
+                a, _ = run_sharded(exe, [f"{pq} {n}"], shards=1, budget=60)
             except HarnessFailure as ex:
                 print("impl  :", ex.info.get("what"))
                 print(f"VIOLATION property={PROP} replay={path}")
                 return 1
-            m = ask_model([f"c12 P {n}"], shards=1)
+            m = ask_model([f"c12 {pq} {n}"], shards=1)
             print("impl  :", a[0]); print("model :", m[0]); print("oracle: prime =", is_prime_det(n), "factorisation =", factorize(n) if n > 1 else None)
             judge_P(n, r.get("class", "replay"), a[0], m[0], " ".join(cfg), wc, viol, stats)
         elif kind == "A":
